@@ -19,6 +19,7 @@ import (
 	"encoding/json"
 	"fmt"
 	"math/big"
+	"math/bits"
 	"os"
 	"os/exec"
 	"path/filepath"
@@ -392,6 +393,12 @@ func runOne[E elem](sc *scenario[E], rc runCfg) *runObs[E] {
 		defer mu.Unlock()
 		s := o.ninit
 		o.ninit++
+		if o.ninit > initCeiling {
+			// one initFunc call per goroutine: the call is starting workers without end (GOMAXPROCS <= 64
+			// and at most a handful of distances allow a few hundred); it cannot be stopped from outside
+			fmt.Fprintf(os.Stderr, "fatal error: c07 harness: BruteForce has started more than %d workers in one call (GOMAXPROCS=%d, maxConcurrency=%d); giving up\n", initCeiling, rc.gomax, rc.maxConc)
+			os.Exit(3)
+		}
 		if rc.initMode == 1 || (rc.initMode == 2 && s == rc.initN) {
 			o.failedSeq = append(o.failedSeq, s)
 			return nil, fmt.Errorf("init refused #%d", s)
@@ -485,13 +492,29 @@ func runOne[E elem](sc *scenario[E], rc runCfg) *runObs[E] {
 	if hangs > 0 {
 		wait = 20 * time.Second
 	}
-	select {
-	case <-done:
-	case <-time.After(wait):
-		o.hung = true
-		o.waited = wait
-		hangs++
+	deadline := time.After(wait)
+	tick := time.NewTicker(25 * time.Millisecond)
+waiting:
+	for {
+		select {
+		case <-done:
+			break waiting
+		case <-deadline:
+			o.hung = true
+			o.waited = wait
+			hangs++
+			break waiting
+		case <-tick.C:
+			// a call that keeps starting goroutines far beyond anything GOMAXPROCS (<= 64 here) allows
+			// cannot be stopped from outside and would exhaust the machine long before the deadline:
+			// the process gives up; the call it announced (gctx.Begin) is reported as not having returned
+			if n := runtime.NumGoroutine(); n > goroutineCeiling {
+				fmt.Fprintf(os.Stderr, "fatal error: c07 harness: BruteForce has %d goroutines running (GOMAXPROCS=%d, maxConcurrency=%d); giving up\n", n, rc.gomax, rc.maxConc)
+				os.Exit(3)
+			}
+		}
 	}
+	tick.Stop()
 	runtime.GOMAXPROCS(prev)
 	if o.hung {
 		// the goroutines of the call may still be running: hand out a snapshot that nobody writes to
@@ -507,22 +530,38 @@ func runOne[E elem](sc *scenario[E], rc runCfg) *runObs[E] {
 // number of BruteForce calls of this process that did not return in time
 var hangs int
 
+// see runOne: more goroutines than any call of the harness may legitimately have
+const goroutineCeiling = 100000
+
+// see initFunc in runOne: more workers than any call of the harness may legitimately start
+const initCeiling = 20000
+
 type tooManyHangs struct{}
 
-func errCode(err error) int {
-	if err == nil {
+// which of run()'s error returns this is (the codes of Model/BruteForce.v), from what the harness
+// itself knows about the call - never from the text of the error:
+//   1 min > max; 2 the initFunc call of the distance-0 shortcut failed (it is the first initFunc
+//   call of a call with min == 0, made before any worker exists); 4 a worker's initFunc failed;
+//   3 some distance of the window has MaxInt64 or more combinations; 9 none of these.
+func errCode[E elem](sc *scenario[E], o *runObs[E]) int {
+	if o.err == nil {
 		return 0
 	}
-	m := err.Error()
-	switch {
-	case strings.HasPrefix(m, "minimal distance"):
+	if sc.wmin > sc.wmax {
 		return 1
-	case strings.HasPrefix(m, "distance is too high"):
-		return 3
-	case strings.HasPrefix(m, "workers had errors"):
+	}
+	if len(o.failedSeq) > 0 {
+		if sc.wmin == 0 && o.failedSeq[0] == 0 {
+			return 2
+		}
 		return 4
-	case strings.HasPrefix(m, "init refused"):
-		return 2
+	}
+	total := int64(sc.total())
+	lim := new(big.Int).SetUint64(1<<63 - 1)
+	for d := int64(sc.wmin); d <= int64(sc.wmax) && d <= total; d++ {
+		if d >= 1 && binom(total, d).Cmp(lim) >= 0 {
+			return 3
+		}
 	}
 	return 9
 }
@@ -814,7 +853,7 @@ func emit[E elem](sc *scenario[E], o *runObs[E], kind string) {
 	res := "(Ok None)"
 	switch {
 	case o.err != nil:
-		res = fmt.Sprintf("(Err %d)", errCode(o.err))
+		res = fmt.Sprintf("(Err %d)", errCode(sc, o))
 	case !o.combNil:
 		res = "(Ok (Some " + gal.ZList64(o.comb) + "))"
 	}
@@ -905,7 +944,48 @@ var gomaxSet = []int{1, 2, 3, 4, 7, 16, 61, 64}
 var maxConcSet = []uint{0, 1, 2, 5}
 
 func randCfg(c *gal.Ctx) runCfg {
-	return runCfg{gomax: gomaxSet[c.Rng.Intn(len(gomaxSet))], maxConc: maxConcSet[c.Rng.Intn(len(maxConcSet))], jitter: c.Rng.Intn(4)}
+	g := gomaxSet[c.Rng.Intn(len(gomaxSet))]
+	mc := maxConcSet[c.Rng.Intn(len(maxConcSet))]
+	if c.Rng.Intn(3) == 0 {
+		mc = wideMaxConc(c, g, c.Rng.Intn(nConcClasses))
+	}
+	return runCfg{gomax: g, maxConc: mc, jitter: c.Rng.Intn(4)}
+}
+
+// maxConcurrency is a uint and the property speaks about ALL of its values ("all GOMAXPROCS and
+// maxConcurrency settings"): a limit far above the number of cores ("no limit of my own") is as
+// legitimate as 2.  wideMaxConc draws from the whole range of the type, class by class: around
+// GOMAXPROCS, around the edges of every narrower integer type (a value whose low 8/16/32 bits are
+// zero or small, the largest value below the edge), around the sign bit of int, the top of uint,
+// and arbitrary values of every bit length.
+const nConcClasses = 8
+
+func wideMaxConc(c *gal.Ctx, gomax int, class int) uint {
+	small := func() uint64 { return uint64(c.Rng.Intn(4)) } // 0..3
+	var v uint64
+	switch class {
+	case 0: // around GOMAXPROCS
+		v = uint64(gomax + c.Rng.Intn(3) - 1)
+	case 1: // around the edge of an 8/16/31/32-bit integer
+		e := []uint{7, 8, 15, 16, 31, 32}[c.Rng.Intn(6)]
+		v = uint64(1)<<e + small() - 1
+	case 2: // low 32 bits zero or small, something above them
+		v = uint64(1+c.Rng.Intn(5))<<32 | small()
+	case 3: // just below the sign bit of int: the largest limits an int can hold
+		v = uint64(1)<<(bits.UintSize-1) - 1 - small()
+	case 4: // the sign bit of int and just above it
+		v = uint64(1)<<(bits.UintSize-1) + small()
+	case 5: // sign bit set, arbitrary other bits
+		v = uint64(1)<<(bits.UintSize-1) | c.Rng.Uint64()
+	case 6: // the top of uint ("no limit of my own")
+		v = uint64(^uint(0)) - small()
+	default: // any bit length
+		v = c.Rng.Uint64() >> uint(c.Rng.Intn(bits.UintSize))
+	}
+	if bits.UintSize < 64 {
+		v &= uint64(^uint(0))
+	}
+	return uint(v)
 }
 
 func randData[E elem](c *gal.Ctx, n int) []E {
@@ -1011,6 +1091,35 @@ func randInit(c *gal.Ctx, rc *runCfg) {
 
 // F1/F2: one worker per distance
 func small[E elem](c *gal.Ctx, maxLen int, maxTop uint64, kind string) {
+	sc := smallScenario[E](c, maxLen, maxTop, kind)
+	a, b := randCfg(c), randCfg(c)
+	randInit(c, &a)
+	runScenario(sc, []runCfg{a, b}, kind)
+}
+
+// F1c: ONE search under maxConcurrency values from every class of the type's range (wideMaxConc),
+// next to the same search without a limit: found / not found and the distance must agree, whatever
+// the limit.  The spaces are small (the limit never binds here: a limit is only ever allowed to
+// LOWER the worker count, and a search that is not split cannot be lowered further).
+func capSweep[E elem](c *gal.Ctx, maxLen int, maxTop uint64, kind string) {
+	sc := smallScenario[E](c, maxLen, maxTop, kind)
+	if sc.wmin > sc.wmax { // the sweep is about searches that run
+		sc.wmin, sc.wmax = sc.wmax, sc.wmin
+	}
+	g := gomaxSet[c.Rng.Intn(len(gomaxSet))]
+	cfgs := []runCfg{{gomax: g, jitter: c.Rng.Intn(4)}}
+	first := c.Rng.Intn(nConcClasses)
+	for k := 0; k < 3; k++ {
+		gk := g
+		if c.Rng.Intn(3) == 0 {
+			gk = gomaxSet[c.Rng.Intn(len(gomaxSet))]
+		}
+		cfgs = append(cfgs, runCfg{gomax: gk, maxConc: wideMaxConc(c, gk, (first+3*k)%nConcClasses), jitter: c.Rng.Intn(4)})
+	}
+	runScenario(sc, cfgs, kind)
+}
+
+func smallScenario[E elem](c *gal.Ctx, maxLen int, maxTop uint64, kind string) *scenario[E] {
 	n := c.Rng.Intn(maxLen + 1)
 	isz := uint64(1)
 	if isBytes[E]() {
@@ -1036,9 +1145,7 @@ func small[E elem](c *gal.Ctx, maxLen int, maxTop uint64, kind string) {
 	} else {
 		sc.p = randPred(c, sc.data, total, dset)
 	}
-	a, b := randCfg(c), randCfg(c)
-	randInit(c, &a)
-	runScenario(sc, []runCfg{a, b}, kind)
+	return sc
 }
 
 // F2b: byte strings of up to 64 items (the whole range of the property), where bit positions
@@ -1354,6 +1461,9 @@ func freshSession(c *gal.Ctx, light bool) {
 	// worker stopped early; only "every worker hits at its first ID" is cheap on a large space)
 	big := float64(binom(bits, int64(sp.d)).Uint64())*float64(20+bits) > 6e6
 	design := runCfg{gomax: []int{3, 4, 7, 16, 16, 61, 64, 64}[c.Rng.Intn(8)], maxConc: []uint{0, 0, 0, 0, 0, 0, 2, 5}[c.Rng.Intn(8)], jitter: c.Rng.Intn(4)}
+	if c.Rng.Intn(8) == 0 { // a limit from anywhere in the range of uint on the very first call of a process
+		design.maxConc = wideMaxConc(c, design.gomax, c.Rng.Intn(nConcClasses))
+	}
 	if c.Rng.Intn(10) == 0 {
 		design.gomax = 2
 	}
@@ -1570,7 +1680,19 @@ func generateAll(c *gal.Ctx) {
 			small[byte](c, 2, 4, "tiny-bytes")
 		}
 	}
-	// ---- F2: one worker, longer scans (digested) ----
+	// ---- F1c: the same search under maxConcurrency values from the whole range of uint ----
+	for i, n := 0, c.Scale(48, 300); i < n; i++ {
+		switch c.Rng.Intn(8) {
+		case 0, 1, 2, 3:
+			capSweep[bool](c, 10, 4, "caprange-bools")
+		case 4, 5:
+			capSweep[byte](c, 2, 4, "caprange-bytes")
+		case 6:
+			capSweep[bool](c, 24, 3, "caprange-bools")
+		default:
+			capSweep[byte](c, 3, 3, "caprange-bytes")
+		}
+	}
 	for i, n := 0, c.Scale(50, 300); i < n; i++ {
 		switch c.Rng.Intn(4) {
 		case 0:
@@ -1614,6 +1736,9 @@ func generateAll(c *gal.Ctx) {
 				variant = []string{"last-of-all", "boundary", "none"}[c.Rng.Intn(3)]
 			}
 			design := runCfg{gomax: []int{2, 3, 4, 7, 16, 61, 64}[c.Rng.Intn(7)], maxConc: []uint{0, 0, 2, 5}[c.Rng.Intn(4)], jitter: c.Rng.Intn(4)}
+			if c.Rng.Intn(4) == 0 {
+				design.maxConc = wideMaxConc(c, design.gomax, c.Rng.Intn(nConcClasses))
+			}
 			others := []runCfg{randCfg(c)}
 			if c.Rng.Intn(3) == 0 {
 				others = append(others, runCfg{gomax: 1})
@@ -1749,7 +1874,8 @@ func finish(c *gal.Ctx) {
 	c.Finish("bruteforcer.BruteForce on []bool (itemSize 1, 0) and []byte (itemSize 0..8): random data of 0..64 items, windows 0<=min<=max<=4 and min>max, " +
 		"predicates false/true/one-of-targets/item-constraints/or, satisfying values at random places and at the first/last combination ID of the worker slices; " +
 		"byte and bool strings of 29..64 items at distances <= 2 with satisfying values in the last items, around items 16/32/48 (bit positions 256.. need more than 8 bits) and split low/high; " +
-		"GOMAXPROCS in {1,2,3,4,7,16,61,64}, maxConcurrency in {0,1,2,5}, initFunc failing never/always/on the n-th call, scheduling jitter in checkFunc; " +
+		"GOMAXPROCS in {1,2,3,4,7,16,61,64}, maxConcurrency in {0,1,2,5} and, in a third of the random configurations, a quarter of the multi-worker designs and in the family caprange-* (one search under no limit and under three limits of different classes), " +
+		"from the whole range of uint: GOMAXPROCS-1..+1, 2^k-1..2^k+2 for k in {7,8,15,16,31,32}, j*2^32+{0..3}, 2^63-1-{0..3}, 2^63+{0..3}, 2^63|random, 2^64-1-{0..3}, random values of every bit length; initFunc failing never/always/on the n-th call, scheduling jitter in checkFunc; " +
 		"spaces of 20000..635376 combinations give 2..63 workers; " +
 		"fresh processes (kind fresh-process, case CFresh = ALL BruteForce calls of one re-executed harness child, in order): the child's first use of pkg/bruteforcer is a call whose first searched distance " +
 		"(bools 29..64 items at distance 3/4, bytes 4..64 items at distance 2..4) is split between 2..63 workers which all seek at the same time, with OS threads pre-started or not; a third of the children go on with the same search under other settings " +
